@@ -376,6 +376,9 @@ func raisedAt(ff *FuncFacts, blk *ssa.BasicBlock, arg ssa.Value, stored Matcher)
 
 func raiseCandidates(ff *FuncFacts, arg ssa.Value, stored Matcher) []ssa.Value {
 	var out []ssa.Value
+	if _, ok := arg.(*ssa.Phi); !ok && !stored.Match(ff.Term(arg)) {
+		return []ssa.Value{arg}
+	}
 	if phi, ok := arg.(*ssa.Phi); ok {
 		for _, e := range phi.Edges {
 			if !stored.Match(ff.Term(e)) {
